@@ -24,3 +24,90 @@ def c13_addr_bad_checksum(case, bucket, detail):
         return False
     a = case.get("arg")
     return isinstance(a, str) and len(a) == 58 and all(c in _B32 for c in a)
+
+
+# --------------------------------------------------------------------------- F6 (optimizer)
+
+
+def _optimizer_on(cfg) -> bool:
+    ss = cfg.get("scratch_slots")
+    return ss is True or (ss is None and cfg.get("version", 2) >= 9)
+
+
+def f6_pattern_in_text(teal: str, reserved=()) -> bool:
+    """A model of the slot-cancelling optimisation run on the *unoptimised* text: True iff at the moment a
+    `store k; load k` pair (k not reserved, the load being the only load of k) is cancelled, the routine holds
+    another store of k - the situation in which pyteal deletes that other store and leaves its operand on the stack."""
+    from .teal import parser as tp
+
+    prog = tp.parse(teal)
+    ins = [[i.op, i.args[0] if i.args else None] for i in prog.instrs]
+    label_at = set(prog.labels.values())
+    # label positions shift as we delete; keep a parallel 'has label before' flag per instruction
+    flag = [idx in label_at for idx in range(len(ins))]
+    reserved = set(str(r) for r in reserved)
+    hit = False
+    changed = True
+    while changed:
+        changed = False
+        for i in range(len(ins) - 1):
+            if ins[i][0] == "store" and ins[i + 1][0] == "load" and ins[i][1] == ins[i + 1][1] and not flag[i + 1]:
+                k = ins[i][1]
+                if k in reserved:
+                    continue
+                loads = sum(1 for o, a in ins if o == "load" and a == k)
+                if loads != 1:
+                    continue
+                stores = sum(1 for o, a in ins if o == "store" and a == k)
+                if stores > 1:
+                    hit = True
+                # what pyteal does: delete every access of k
+                keep = [j for j in range(len(ins)) if not (ins[j][0] in ("load", "store") and ins[j][1] == k)]
+                # carry label flags forward to the next kept instruction
+                nf = []
+                pending = False
+                for j in range(len(ins)):
+                    if j in set(keep):
+                        nf.append(flag[j] or pending)
+                        pending = False
+                    else:
+                        pending = pending or flag[j]
+                ins = [ins[j] for j in keep]
+                flag = nf
+                changed = True
+                break
+    return hit
+
+
+def _f6_case(case) -> bool:
+    from . import diff
+
+    recipe = case.get("recipe")
+    if not isinstance(recipe, dict):
+        return False
+    reserved = [d["slot"] for d in recipe.get("vars", {}).values() if d.get("slot") is not None]
+    for r in recipe.get("routines", []):
+        reserved += [d["slot"] for d in r.get("locals", {}).values() if d.get("slot") is not None]
+    for cfg in case.get("configs", []):
+        if not _optimizer_on(cfg):
+            continue
+        c2 = dict(cfg)
+        c2["scratch_slots"] = False
+        c2["assemble"] = False
+        oc = diff.compile_recipe(recipe, c2, case.get("builder_kw"))
+        if oc.teal is None:
+            continue
+        # DynamicScratchVar-indexed and multi-routine slots are skipped by the optimiser; the model is only
+        # consulted for plain slots, which is where the finding lives
+        if f6_pattern_in_text(oc.teal, reserved):
+            return True
+    return False
+
+
+@predicate("f6_cancelled_slot_has_other_stores")
+def f6_cancelled_slot_has_other_stores(case, bucket, detail):
+    """F6: with the slot optimisation on, a routine-local automatically numbered slot whose only load directly
+    follows a store, and which is stored to elsewhere in the routine as well."""
+    if not isinstance(case, dict):
+        return False
+    return _f6_case(case)
